@@ -1,6 +1,6 @@
 #!/bin/sh
 # runs every registered quick check on the current /repo tree and prints one line per property
-cd /verif || exit 2
+cd "$(dirname "$0")/.." || exit 2
 for p in C01 C02 C03 C04 C05 C06 C07 C08 C09 C10 C11 C12 C13 C14 C15 C16; do
   s=$(date +%s)
   out=$(timeout 1500 ./check $p --tier "${1:-quick}" 2>&1); rc=$?
